@@ -46,6 +46,7 @@ type Case struct {
 	NoMain   bool        `json:"no_main,omitempty"` // the helper is not a registered command (cmd/testscript)
 	NoRoot   bool        `json:"no_root,omitempty"`   // run without Params.WorkdirRoot (work directory under $TMPDIR) ...
 	TestWork bool        `json:"test_work,omitempty"` // ... with this Params.TestWork
+	Shadow   bool        `json:"shadow,omitempty"`    // Params.Cmds also has keys named like built-in and registered commands
 	Kind     string      `json:"kind"`              // constructive | wild | corpus | cli | c16
 	Note     string      `json:"note,omitempty"`
 }
@@ -121,6 +122,10 @@ func (t *recT) Run(name string, f func(testscript.T)) {
 
 var watchVars = []string{"X", "Y", "Z"}
 
+// custom command names that collide with the standard set (Params.Cmds is only consulted
+// for commands that are not part of it)
+var shadowNames = []string{"exists", "exec", "stop", "skip", "cd", "cmp", "stdout", "mkdir", "wait", helperName}
+
 // runImpl runs the case under dir (a fresh directory of its own) and returns the observation.
 func runImpl(c *Case, dir string) *Obs {
 	o := &Obs{}
@@ -171,6 +176,18 @@ func runImpl(c *Case, dir string) *Obs {
 					ts.Fatalf("negok called without !")
 				}
 			},
+		}
+		if c.Shadow {
+			// a custom command must never replace a built-in or a registered one: these record
+			// a probe if they are ever reached
+			for _, name := range shadowNames {
+				name := name
+				p.Cmds[name] = func(ts *testscript.TestScript, neg bool, args []string) {
+					pmu.Lock()
+					o.Probes = append(o.Probes, "SHADOW-REACHED:"+name)
+					pmu.Unlock()
+				}
+			}
 		}
 	}
 	if c.HasCond {
